@@ -60,7 +60,8 @@ def worker(args, scratch):
             return {"status": 200, "body": b"unregistered"}
         return spec
     # a single-threaded runtime makes the scheduling between the per-connection server task and the upstream connection task tight
-    w = wproxy.World(scratch, runtime=args.get("runtime", "multi:8"), handler=handler, log_level="Info")
+    wrapper, vgdir = (common.memcheck_wrapper(scratch) if args.get("memcheck") else (None, None))
+    w = wproxy.World(scratch, runtime=args.get("runtime", "multi:8"), handler=handler, log_level="Info", wrapper=wrapper)
     burners = []
     if args.get("stress"):
         import subprocess, sys
@@ -227,6 +228,21 @@ def worker(args, scratch):
         for b in burners:
             b.kill()
         w.close()
+    if vgdir:
+        # supplementary sanitizer pass: the same data path under valgrind memcheck (hyper/bytes/tokio/libc as built for the agent)
+        time.sleep(0.5)
+        reports, summaries = common.memcheck_reports(vgdir)
+        cnt["memcheck_error_summaries"] = len(summaries)
+        cnt["memcheck_reports"] = len(reports)
+        seen = set()
+        for rp in reports:
+            key = (rp["kind"], rp["first_agent_frame"])
+            if key in seen:
+                continue
+            seen.add(key)
+            res["violations"].append(["memcheck:%s" % rp["kind"], rp])
+        if not summaries:
+            res.setdefault("inconclusive", []).append("memcheck slice produced no valgrind summary")
     return res
 
 
@@ -240,6 +256,9 @@ def run(tier, rep):
     shards = 8 if tier == "quick" else 16
     args = [{"shard": i, "tier": tier, "connections": 160 if tier == "quick" else 1500, "concurrency": 8 if i % 2 else 16, "max_per_conn": 15,
              "exempt_max": (2 << 20) if tier == "quick" else (8 << 20), "big": i % 3 == 0, "runtime": ["multi:8", "multi:8", "multi:4", "current"][i % 4], "stress": 0 if i % 4 == 3 else 8} for i in range(shards)]
+    if tier == "thorough":
+        # memcheck slice: ~25x slower, so 1/50 of a shard, no CPU burners, generous socket timeouts
+        args.append({"shard": 1000, "tier": tier, "connections": 24, "concurrency": 4, "max_per_conn": 6, "exempt_max": 1 << 20, "big": True, "runtime": "multi:2", "stress": 0, "memcheck": True})
     for res in sandbox.run_many("vf.props.c14", "worker", args, workers=shards, timeout=3000):
         rep.merge_worker(res)
     rep.assumptions += ["header order across different names and header-name letter case are not compared (no meaning in HTTP; hyper normalises names)",
